@@ -7,6 +7,7 @@ import (
 	"net"
 	"reflect"
 	"strings"
+	"sync"
 
 	"free5gclib/aper"
 	"free5gclib/nas/nasConvert"
@@ -29,7 +30,7 @@ import (
 // conversion helpers and the two hand-written extractors. Inputs are generated inside the goroutine from the actor's
 // own PRNG; generators of the harness that keep shared tables are serialised by c20RefMu (the monitor must not be the race).
 
-var c20ExtNames = []string{"ngap-any-message", "ngap-transfer-container", "nas-any-message", "ngap-builder", "identity-and-conversion", "extractors", "large-fragmented-value", "algorithm-entry-points"}
+var c20ExtNames = []string{"ngap-any-message", "ngap-transfer-container", "nas-any-message", "ngap-builder", "identity-and-conversion", "extractors", "large-fragmented-value", "algorithm-entry-points", "deeply-nested-decode"}
 
 // c20Builders: the C13 builder table minus the two NG Setup builders (they WRITE the announced PLMN, which the
 // emulator does once before any UE exists - stated assumption of the check).
@@ -206,6 +207,53 @@ func c20OpExt(a *c20Actor, kind int, h hash.Hash) {
 		m2, err := security.NIA2(a.ue.KnasInt, cnt, 1, uint8(dir), msg)
 		fmt.Fprint(h, err)
 		h.Write(m2)
+	case 8: // the DEEPEST messages (nested lists of lists of choices ...), decoded by every goroutine at once: whatever a decoder
+		// counts while it descends - depth, elements, octets - it counts for ONE call
+		if a.deep == nil {
+			ms := c20DeepMessages()
+			if len(ms) == 0 {
+				return
+			}
+			for try := 0; try < 10; try++ { // the longest of ten candidates: length goes with nesting here
+				m := ms[r.Intn(len(ms))]
+				pdu, _ := genPDU(r, m, 1500, try%2 == 1, true)
+				if b, err := ngap.Encoder(pdu); err == nil && len(b) > len(a.deep) && len(b) <= 4096 {
+					a.deep = b
+				}
+			}
+			fmt.Fprint(h, len(a.deep))
+			if a.deep == nil {
+				a.deep = []byte{}
+			}
+		}
+		for i := 0; i < 3 && len(a.deep) > 0; i++ {
+			back, err := ngap.Decoder(append([]byte(nil), a.deep...))
+			fmt.Fprint(h, err)
+			if err == nil && back != nil && i == 0 {
+				b2, err := ngap.Encoder(*back)
+				fmt.Fprint(h, err)
+				h.Write(b2)
+			}
+		}
 	}
 	_ = tglib.NewRanUeContext
+}
+
+var (
+	c20DeepOnce sync.Once
+	c20DeepMemo []msgRef
+)
+
+// c20DeepMessages: the message types whose values nest deepest.
+func c20DeepMessages() []msgRef {
+	c20DeepOnce.Do(func() {
+		want := map[string]bool{"Paging": true, "HandoverRequest": true, "HandoverRequired": true, "InitialContextSetupRequest": true, "PDUSessionResourceSetupRequest": true,
+			"UplinkRANStatusTransfer": true, "DownlinkRANStatusTransfer": true, "PathSwitchRequest": true, "WriteReplaceWarningResponse": true, "HandoverCommand": true}
+		for _, m := range ngapMessages() {
+			if want[m.Name[strings.IndexByte(m.Name, '.')+1:]] {
+				c20DeepMemo = append(c20DeepMemo, m)
+			}
+		}
+	})
+	return c20DeepMemo
 }
